@@ -14,11 +14,13 @@ from vf.core import Ctx, Recorder
 SERVER_BEHAVIOURS = [
     {"framing": "cl"}, {"framing": "cl", "segments": 4}, {"framing": "chunked"}, {"framing": "chunked", "segments": 5}, {"framing": "close"}, {"framing": "cl", "keepalive": False},
     {"framing": "cl", "stray": "garbage-now"}, {"framing": "cl", "stray": "response-now"}, {"framing": "cl", "stray": "garbage-idle"}, {"framing": "cl", "stray": "response-idle"}, {"framing": "cl", "stray": "eof-idle"},
+    {"framing": "cl", "body_cuts": [54]}, {"framing": "cl", "body_cuts": [27, 54, 81]}, {"framing": "cl", "body_cuts": [36, 72]}, {"framing": "cl", "body_cuts": [9, 64, 100]},
+    {"framing": "cl", "tail-half": True}, {"framing": "cl", "body-is-response": True},
     {"framing": "cl", "short": True}, {"framing": "cl", "extra-beyond-cl": True}, {"framing": "cl", "segments": 6, "tail-looks-like-response": True},
     {"framing": "cl", "segments": 6, "timeout_at_recv": 2}, {"framing": "chunked", "segments": 8, "timeout_at_recv": 3}, {"framing": "cl", "segments": 5, "reset_at_recv": 2},
     {"framing": "chunked", "stray": "response-idle"}, {"status": 204, "stray": "response-now"}, {"status": 304, "stray": "response-idle"}, {"status": 204}, {"pre100": True, "framing": "cl"}, {"pre100": True, "framing": "cl", "stray": "response-idle"},
 ]
-CALLER_BEHAVIOURS = ["read", "read-part-release", "release-unread", "drain", "close", "stream-part-abandon", "ignore", "read-part-close", "stream", "read-late"]  # read-late: read and release only after the next request was made (two leases overlap, then two connections idle)
+CALLER_BEHAVIOURS = ["read", "read-part-release", "release-unread", "drain", "close", "stream-part-abandon", "ignore", "read-part-close", "stream", "read-late", "read1-loop", "readinto-loop", "early-close", "early-read"]  # early-*: release_conn=True with a streamed body (the connection goes back to the pool before the body is read), then close() / read()  # read-late: read and release only after the next request was made (two leases overlap, then two connections idle)
 METHODS = ["GET", "GET", "HEAD", "POST"]
 
 
@@ -31,6 +33,7 @@ class DesyncServer:
         self.behaviours = list(behaviours)
         self.arrivals: list[dict[str, typing.Any]] = []
         self.idle_actions: list[tuple[netsim.ServerConn, str, str]] = []
+        self.bodies: dict[str, list[bytes]] = {}  # what was sent as the body of the reply to each request id
         self.response_alive: typing.Callable[[str], bool] = lambda rid: True
 
     def on_request(self, net: netsim.Net, sc: netsim.ServerConn, req: wire.Request) -> None:
@@ -45,6 +48,16 @@ class DesyncServer:
         body = body_for(rid)
         if b.get("tail-looks-like-response"):
             body = body_for(rid, 3) + b"HTTP/1.1 200 OK\r\nContent-Length: 13\r\n\r\n[" + rid.encode() + b":TAIL-OF]"
+        if b.get("tail-half"):
+            # the second half of the body is a stored HTTP exchange; the body arrives as head, first half, second half
+            tail = b"HTTP/1.1 200 OK\r\nContent-Length: 13\r\n\r\n[" + rid.encode() + b":TAIL-OF]"
+            body = body_for(rid, 20)[: len(tail)] + tail
+            b = dict(b, body_cuts=[len(tail)])
+        if b.get("body-is-response"):
+            # the whole body is a stored HTTP exchange and arrives after the head, in a piece of its own
+            body = b"HTTP/1.1 200 OK\r\nContent-Length: 13\r\n\r\n[" + rid.encode() + b":TAIL-OF]"
+            b = dict(b, body_cuts=[10**6])
+        self.bodies.setdefault(rid, []).append(body)
         head_only = req.method == b"HEAD" or status in (204, 304)
         msg = b""
         if b.get("pre100"):
@@ -70,6 +83,12 @@ class DesyncServer:
             # two pieces: everything up to the point where the body's tail starts to look like a response, then that tail
             cut = msg.index(b"HTTP/1.1 200 OK\r\nContent-Length: 13")
             sc.write_segmented([msg[:cut], msg[cut:]])
+        elif b.get("body_cuts") and not head_only and b.get("framing", "cl") == "cl" and b"\r\n\r\n" in msg:
+            # the head in one piece, then the body cut at the given offsets (equal parts, or arbitrary): every piece is what
+            # one receive call of the client yields, so sized reads and receive boundaries line up in chosen ways
+            h = msg.index(b"\r\n\r\n", msg.index(b"HTTP/1.1 " + str(status).encode())) + 4
+            cuts = [0] + sorted(c for c in b["body_cuts"] if 0 < c < len(msg) - h) + [len(msg) - h]  # (no cut inside: head, then the whole body)
+            sc.write_segmented([msg[:h]] + [msg[h + a : h + z] for a, z in zip(cuts, cuts[1:])])
         elif b.get("segments"):
             n = max(1, len(msg) // int(b["segments"]))
             sc.write_segmented([msg[i : i + n] for i in range(0, len(msg), n)])
@@ -120,7 +139,7 @@ def run_case(rec: Recorder, case: dict[str, typing.Any]) -> None:
             rid = f"r{i}"
             got = bytearray()
             try:
-                r = pool.urlopen(method, f"/{rid}", preload_content=False, retries=case["retries"], body=(b"x" if method == "POST" else None))
+                r = pool.urlopen(method, f"/{rid}", preload_content=False, retries=case["retries"], body=(b"x" if method == "POST" else None), **({"release_conn": True} if how.startswith("early-") else {}))
                 outcomes[rid] = f"status:{r.status}"
                 refs[rid] = weakref.ref(r)
                 if how == "read":
@@ -132,14 +151,30 @@ def run_case(rec: Recorder, case: dict[str, typing.Any]) -> None:
                     r.release_conn()
                 elif how == "drain":
                     r.drain_conn()
-                elif how == "close":
+                elif how in ("close", "early-close"):
                     r.close()
+                elif how == "early-read":
+                    got += r.read()
                 elif how == "read-part-close":
                     got += r.read(9)
                     r.close()
                 elif how == "stream":
                     for piece in r.stream(11):
                         got += piece
+                elif how == "read1-loop":
+                    # io.BufferedReader / TextIOWrapper style: whatever one receive call yields, until the empty read
+                    while True:
+                        piece = r.read1(64)
+                        if not piece:
+                            break
+                        got += piece
+                elif how == "readinto-loop":
+                    buf = bytearray(27)
+                    while True:
+                        k = r.readinto(buf)
+                        if not k:
+                            break
+                        got += buf[:k]
                 elif how == "stream-part-abandon":
                     g = r.stream(10)
                     got += next(g, b"")
@@ -173,6 +208,7 @@ def run_case(rec: Recorder, case: dict[str, typing.Any]) -> None:
                 lr = None
             server.idle()
         arrivals = list(server.arrivals)
+        sent_bodies = {k: list(v) for k, v in server.bodies.items()}
         pool.close()
     rec.mon("history")
     for i, method in enumerate(case["methods"]):
@@ -194,7 +230,7 @@ def run_case(rec: Recorder, case: dict[str, typing.Any]) -> None:
         if method == "HEAD":
             ok = got == b""
         else:
-            ok = full.startswith(got) or alt.startswith(got)
+            ok = full.startswith(got) or alt.startswith(got) or any(x.startswith(got) for x in sent_bodies.get(rid, []))
         if not ok:
             # whose bytes are these?
             foreign = None
@@ -294,6 +330,59 @@ def run_tls_strays(ctx: Ctx, rec: Recorder) -> None:
                             if data != f"origin:/clean/{i}".encode():
                                 rec.fail(case, "foreign-bytes-delivered", {"rid": f"clean/{i}", "got": data[:60], "foreign": "stray", "tls": True, "version": str(max_tls)}, f"request /clean/{i} over TLS was handed {data[:60]!r}")
                                 break
+        # a connection object that is re-established (the server announced 'Connection: close') while another descriptor
+        # of the process has taken the number of its old socket: the checkout probe must look at the socket the connection
+        # has now, so a stray response on the new socket is still seen
+        import os
+
+        for max_tls in (None, ssl.TLSVersion.TLSv1_2):
+            for retries in (False, 2):
+                for nfill in (1, 3):
+                    case = {"tls_stray": "after-reconnect", "max_tls": str(max_tls), "retries": retries, "fillers": nfill}
+                    rec.case(["tls-stray-after-reconnect", str(max_tls), retries, nfill])
+                    rec.mon("tls_stray_after_reconnect")
+                    cfgs = {0: {"role": "origin", "tls": ("exact", "trusted"), "close_after": 2}, 1: {"role": "origin", "tls": ("exact", "trusted"), "stray_after_request": 1, "stray_kind": "response"}}
+                    plain = {"role": "origin", "tls": ("exact", "trusted")}
+                    fillers: list[int] = []
+                    out = []
+                    with tlsnet.TLSNet(lambda i: cfgs.get(i, plain), certs) as net, warnings.catch_warnings():
+                        warnings.simplefilter("ignore")
+                        net.listener.max_tls = max_tls
+                        pool = urllib3.HTTPSConnectionPool("good.test", 443, ca_certs=certs.ca_file, maxsize=1, retries=retries)
+                        try:
+                            for i in (1, 2):
+                                r = pool.urlopen("GET", f"/first/{i}", retries=retries)
+                                out.append((r.status, r.data))
+                            # the first connection is closed now; quiet descriptors take the freed number(s)
+                            for _ in range(nfill):
+                                fillers.extend(os.pipe())
+                            r = pool.urlopen("GET", "/second/3", retries=retries)
+                            out.append((r.status, r.data))
+                            t_end = time.monotonic() + 5.0
+                            while time.monotonic() < t_end and not (len(net.listener.log) > 1 and net.listener.log[1].get("stray_sent")):
+                                time.sleep(0.005)
+                            if not (len(net.listener.log) > 1 and net.listener.log[1].get("stray_sent")):
+                                rec.count("tls_stray_never_sent")
+                                continue
+                            time.sleep(0.05)
+                            for i in (4, 5):
+                                try:
+                                    r = pool.urlopen("GET", f"/clean/{i}", retries=retries)
+                                    out.append((i, r.data))
+                                except urllib3.exceptions.HTTPError as e:
+                                    out.append(("urllib3-error", type(e).__name__.encode()))
+                        except Exception as e:  # noqa: BLE001
+                            rec.fail(case, "non-urllib3-exception", {"exc": type(e).__name__}, f"{type(e).__name__}: {e!s:.100}")
+                            continue
+                        finally:
+                            pool.close()
+                            for fd in fillers:
+                                os.close(fd)
+                            net.wait_quiet(1.5)
+                    for i, data in out[3:]:
+                        if i != "urllib3-error" and data != f"origin:/clean/{i}".encode():
+                            rec.fail(case, "foreign-bytes-delivered", {"rid": f"clean/{i}", "got": data[:60], "foreign": "stray", "tls": True, "after_reconnect": True}, f"request /clean/{i} on a re-established TLS connection was handed {data[:60]!r}")
+                            break
     finally:
         certs.close()
 
